@@ -10,7 +10,6 @@ import (
 	"verif/simrt/simnet"
 )
 
-
 func defaultCluster(name string, bs ...*nbackend) *ncluster {
 	return &ncluster{Name: name, Subs: map[string][]*nbackend{"sub1." + name: bs}, SubWeights: map[string]int{"sub1." + name: 10},
 		RetryMax: 2, CrossRetry: 0, RetryLevel: 0, MaxIdle: 2, RespHdrTO: 5000, ConnTO: 1000, ReadCliTO: 30000, WriteCliTO: 60000, ReadAgain: 30000, ReqBuf: 512, ResFlush: -1}
